@@ -109,6 +109,8 @@ type Opts struct {
 	Procs       int    `json:"procs,omitempty"`        // GOMAXPROCS; 0 = 4 (2 shards)
 	Optimizers  string `json:"optimizers,omitempty"`   // "" default | none | all | any of "s","m","p"
 	Fallback    bool   `json:"fallback,omitempty"`
+	// Debug: the engine is given a DebugWriter (the plan of every created query is dumped).
+	Debug bool `json:"debug,omitempty"`
 	// RemoteNoFallback: the remote engines of a distributed case have fallback disabled
 	// whatever Fallback says for the coordinator.
 	RemoteNoFallback bool `json:"remote_no_fallback,omitempty"`
